@@ -32,7 +32,6 @@ ORIENTATION = [
     ('data_struct::revision_map::RevisionMap::<K, V>::keep', [LL + 'split_off$'], [LL + 'pop_front$'], 'keep retains the head'),
     ('core::MasterSecretKey::mpk', [LL + 'front$'], [LL + 'back$', LL + 'iter$'], 'the public key is built from the newest secret', '(bool, core::RightSecretKey)'),
     ('data_struct::revision_vec::RevisionVec::<K, T>::revisions', [LL + 'iter$'], [r'::rev$'], 'revisions start at the newest secret'),
-    ('data_struct::revision_vec::RevisionVec::<K, T>::create_chain_with_single_value', [LL + 'push_front$|' + LL + 'push_back$'], [], ''),
     ('core::primitives::refresh_coordinate_keys', [LL + 'push_back$', LL + 'iter$'], [LL + 'push_front$', r'::rev$'],
      'the merged chain is appended in iteration order from the front', 'RightSecretKey'),
 ]
